@@ -22,6 +22,7 @@ table is treated conservatively: the result may alias every argument (and the re
 from __future__ import annotations
 
 import ast
+import re
 from pathlib import Path
 
 from ..common import SRC
@@ -104,11 +105,59 @@ MUTATING_FUNCS = {
     "np.random.shuffle", "random.shuffle", "np.add.at", "np.subtract.at", "np.multiply.at",
     "setattr", "delattr",
 }
+# more functions that modify their first argument in place (stdlib)
+MUTATING_FUNCS |= {
+    "heapq.heappush", "heapq.heappop", "heapq.heapify", "heapq.heapreplace", "heapq.heappushpop", "heappush",
+    "heappop", "heapify", "bisect.insort", "bisect.insort_left", "bisect.insort_right", "insort", "insort_left",
+    "insort_right", "operator.setitem", "operator.delitem", "operator.iadd", "operator.isub", "operator.imul",
+    "operator.itruediv", "operator.ifloordiv", "operator.imod", "operator.ipow", "operator.imatmul",
+    "operator.iand", "operator.ior", "operator.ixor", "operator.iconcat", "np.ndarray.sort", "np.ndarray.fill",
+    "np.ndarray.partition", "np.ndarray.put", "np.ndarray.resize", "np.ndarray.setflags", "np.ndarray.itemset",
+    "np.ndarray.__setitem__", "np.ndarray.__iadd__", "np.ndarray.__isub__", "np.ndarray.__imul__",
+    "np.ndarray.__itruediv__", "rng.shuffle", "np.random.default_rng().shuffle",
+}
+# methods that modify their FIRST ARGUMENT in place (random generators)
+ARG_MUTATING_METHODS = {"shuffle"}
+# keyword arguments that name an output buffer (the call writes into the object given)
+OUT_KEYWORDS = {"out", "output"}
+# keyword arguments that allow the callee to work in place on its array arguments unless they are the
+# constant False: SciPy `overwrite_a / overwrite_b / overwrite_ab / overwrite_x / overwrite_data / overwrite_v …`,
+# NumPy `overwrite_input`, pandas-style `inplace` (LAPACK ignores the writeable flag of the array)
+def _is_overwrite_kw(name: str) -> bool:
+    return name.startswith("overwrite") or name == "inplace"
+# scipy.linalg routines with the signature (a, b, …, overwrite_a=False, overwrite_b=False, …)
+AB_SOLVERS = {"solve", "solve_triangular", "lstsq", "eigh", "eig", "eigvals", "eigvalsh", "cho_solve", "lu_solve",
+              "solveh_banded"}
+# `copy=<anything but the constant True>`: the result may be the argument itself; only for these pure
+# converters is nothing written (np.nan_to_num(x, copy=False) works in place)
+COPY_FALSE_CONVERTERS = {"np.array", "np.asarray", "np.asanyarray", "np.ascontiguousarray", "np.asfortranarray",
+                         "np.require", "np.reshape", "astype", "reshape", "view"}
+# positional `out`: index of the output operand
+UNARY_UFUNCS = {"np." + n for n in (
+    "abs absolute fabs sign sqrt cbrt square exp exp2 expm1 log log2 log10 log1p sin cos tan arcsin arccos arctan "
+    "sinh cosh tanh arcsinh arccosh arctanh floor ceil rint trunc negative positive reciprocal conj conjugate "
+    "isnan isinf isfinite logical_not deg2rad rad2deg degrees radians invert signbit spacing").split()}
+BINARY_UFUNCS = {"np." + n for n in (
+    "add subtract multiply divide true_divide floor_divide power float_power mod remainder fmod maximum minimum "
+    "fmax fmin arctan2 hypot copysign nextafter ldexp logaddexp logaddexp2 logical_and logical_or logical_xor "
+    "equal not_equal less greater less_equal greater_equal bitwise_and bitwise_or bitwise_xor left_shift "
+    "right_shift heaviside gcd lcm matmul").split()}
+FUNC_OUT_POS = {"np.dot": 2, "np.outer": 2, "np.clip": 3, "np.round": 2, "np.around": 2, "np.max": 2, "np.min": 2,
+                "np.amax": 2, "np.amin": 2, "np.argmax": 2, "np.argmin": 2, "np.any": 2, "np.all": 2, "np.sum": 3,
+                "np.prod": 3, "np.mean": 3, "np.cumsum": 3, "np.cumprod": 3, "np.take": 3, "np.compress": 3,
+                "np.choose": 2, "np.nan_to_num": None}
+METHOD_OUT_POS = {"sum": 2, "prod": 2, "mean": 2, "std": 2, "var": 2, "max": 1, "min": 1, "argmax": 1, "argmin": 1,
+                  "any": 1, "all": 1, "dot": 1, "round": 1, "clip": 2, "cumsum": 2, "cumprod": 2, "take": 2,
+                  "compress": 2, "choose": 1, "ptp": 1}
+
 # methods that modify the receiver in place
 MUTATING_METHODS = {
     "sort", "fill", "resize", "put", "itemset", "setflags", "partition", "byteswap_inplace",
     "append", "extend", "insert", "remove", "clear", "reverse", "pop", "popitem",
     "update", "setdefault", "add", "discard", "setfield",
+    "__setitem__", "__delitem__", "__setattr__", "__delattr__", "__iadd__", "__isub__", "__imul__", "__itruediv__",
+    "__ifloordiv__", "__imod__", "__ipow__", "__imatmul__", "__iand__", "__ior__", "__ixor__", "__ilshift__",
+    "__irshift__", "sort_values_inplace",
 }
 # methods returning a new object not aliasing the receiver
 FRESH_METHODS = {
@@ -831,6 +880,71 @@ class FuncTranslator:
                 self.alias(c)
 
     def call(self, e: ast.Call):
+        """Aliases of the result of a call (see `_call`), after the effects that depend on HOW the callee
+        is called: keyword arguments that let it work in place, `copy=False`, positional `out` operands."""
+        res = self._call(e)
+        f = e.func
+        name = dotted(f)
+        write_all = any(k.arg and _is_overwrite_kw(k.arg) and not (isinstance(k.value, ast.Constant) and k.value.value is False)
+                        for k in e.keywords)
+        may_alias = any(k.arg == "copy" and not (isinstance(k.value, ast.Constant) and k.value.value is True)
+                        for k in e.keywords)
+        is_obj_method = isinstance(f, ast.Attribute) and self._is_object(f.value)
+        last = f.attr if isinstance(f, ast.Attribute) else name
+        targets = None
+        if write_all and not may_alias and (name or "").split(".")[-1] in AB_SOLVERS and not is_obj_method \
+                and not any(isinstance(a, ast.Starred) for a in e.args) and all(k.arg for k in e.keywords):
+            # scipy.linalg (a, b, …, overwrite_a=…, overwrite_b=…): only the named operand is written
+            targets = []
+            for k in e.keywords:
+                if _is_overwrite_kw(k.arg) and not (isinstance(k.value, ast.Constant) and k.value.value is False):
+                    slot = {"overwrite_a": ("a", 0), "overwrite_b": ("b", 1)}.get(k.arg)
+                    if slot is None:
+                        targets = None
+                        break
+                    targets += [kk.value for kk in e.keywords if kk.arg == slot[0]] + list(e.args[slot[1]:slot[1] + 1])
+        if write_all or may_alias:
+            ys, cb = set(), False
+            for a in (targets if targets is not None else
+                      list(e.args) + [k.value for k in e.keywords] + ([f.value] if is_obj_method else [])):
+                y, c = self.alias(a)
+                ys |= y
+                cb |= c
+            if write_all or not ((name in COPY_FALSE_CONVERTERS and not is_obj_method) or (is_obj_method and last in COPY_FALSE_CONVERTERS)):
+                self.inplace(ys, e.lineno)
+                if cb:
+                    self.inplace([self.cbvar()], e.lineno)
+            res = (set(res[0]) | ys, res[1] or cb)
+        # positional output operand
+        idx = None
+        if not is_obj_method and name is not None:
+            if name in UNARY_UFUNCS:
+                idx = 1
+            elif name in BINARY_UFUNCS:
+                idx = 2
+            else:
+                idx = FUNC_OUT_POS.get(name)
+            if re.match(r"^np\.\w+\.at$", name) and e.args:
+                idx = 0
+        elif is_obj_method:
+            idx = METHOD_OUT_POS.get(last)
+            if last in ARG_MUTATING_METHODS and e.args:
+                idx = 0
+        if idx is not None and len(e.args) > idx and not any(isinstance(a, ast.Starred) for a in e.args[:idx + 1]):
+            ys, cb = self.alias(e.args[idx])
+            self.inplace(ys, e.lineno)
+            if cb:
+                self.inplace([self.cbvar()], e.lineno)
+            res = (set(res[0]) | ys, res[1] or cb)
+        elif idx is not None and any(isinstance(a, ast.Starred) for a in e.args):
+            for a in e.args:   # `*args` may reach the output operand
+                ys, cb = self.alias(a)
+                self.inplace(ys, e.lineno)
+                if cb:
+                    self.inplace([self.cbvar()], e.lineno)
+        return res
+
+    def _call(self, e: ast.Call):
         argys, argcb = set(), False
         for a in e.args:
             ys, cb = self.alias(a)
@@ -838,7 +952,7 @@ class FuncTranslator:
             argcb |= cb
         for k in e.keywords:
             ys, cb = self.alias(k.value)
-            if k.arg == "out":
+            if k.arg in OUT_KEYWORDS:
                 self.inplace(ys, e.lineno)
                 if cb:
                     self.inplace([self.cbvar()], e.lineno)
@@ -1277,6 +1391,86 @@ PINNED_SELFTEST = [
     # keyword-only default, no call names it
     ("def t(a):\n    def f(x, *, w=a):\n        return x\n    return f(a) + f(a)\n", {"w": True}),
 ]
+
+
+EFFECTS_SELFTEST = [
+    # (source of a top-level function whose parameters are the caller's, must the analysis flag it?)
+    # the escaped seeded change: LAPACK allowed to overwrite a view of the caller's y0
+    ("def t(deriv, y0):\n    return solve(deriv, np.asarray(y0[1:], dtype=float), overwrite_b=True)\n", True),
+    ("def t(deriv, y0):\n    return solve(deriv, np.array(y0[1:]), overwrite_b=True)\n", False),
+    ("def t(deriv, y0):\n    return solve(deriv, np.asarray(y0[1:], dtype=float))\n", False),
+    ("def t(deriv, y0):\n    return solve(deriv, y0, overwrite_b=False)\n", False),
+    ("def t(deriv, y0, flag):\n    return solve(deriv, y0, overwrite_b=flag)\n", True),
+    ("def t(a):\n    return scipy.linalg.lu_factor(a, overwrite_a=True, check_finite=False)\n", True),
+    ("def t(a):\n    return scipy.fft.fft(a, overwrite_x=True)\n", True),
+    ("def t(a):\n    return np.median(a, overwrite_input=True)\n", True),
+    ("def t(a):\n    return scipy.signal.detrend(a, overwrite_data=True)\n", True),
+    ("def t(a):\n    return a.byteswap(inplace=True)\n", True),
+    # copy=False: the result is the argument; in-place work on it afterwards / by the callee
+    ("def t(a):\n    b = np.array(a, copy=False)\n    b += 1\n    return b\n", True),
+    ("def t(a):\n    b = np.array(a, copy=True)\n    b += 1\n    return b\n", False),
+    ("def t(a):\n    b = a.astype(float, copy=False)\n    b[0] = 1\n    return b\n", True),
+    ("def t(a):\n    b = a.astype(float)\n    b[0] = 1\n    return b\n", False),
+    ("def t(a):\n    return np.nan_to_num(a, copy=False)\n", True),
+    ("def t(a):\n    return np.nan_to_num(a)\n", False),
+    # output operands: keyword and positional
+    ("def t(a, b):\n    return np.add(a, b, out=a)\n", True),
+    ("def t(a, b):\n    return np.add(a, b, a)\n", True),
+    ("def t(a, b):\n    return np.add(a, b)\n", False),
+    ("def t(a):\n    return np.sqrt(a, a)\n", True),
+    ("def t(a, b):\n    return np.dot(a, b, b)\n", True),
+    ("def t(a):\n    return a.clip(0, 1, a)\n", True),
+    ("def t(a):\n    return scipy.ndimage.gaussian_filter(a, 1.0, output=a)\n", True),
+    # external calls that write into an argument
+    ("def t(a):\n    np.copyto(a, 0)\n", True),
+    ("def t(a):\n    np.put(a, [0], 1)\n", True),
+    ("def t(a):\n    np.place(a, a > 0, 1)\n", True),
+    ("def t(a):\n    np.putmask(a, a > 0, 1)\n", True),
+    ("def t(a):\n    np.put_along_axis(a, a, 1, 0)\n", True),
+    ("def t(a):\n    np.fill_diagonal(a, 0)\n", True),
+    ("def t(a):\n    np.add.at(a, [0], 1)\n", True),
+    ("def t(a):\n    np.maximum.at(a, [0], 1)\n", True),
+    ("def t(a):\n    np.random.shuffle(a)\n", True),
+    ("def t(a):\n    rng = np.random.default_rng(0)\n    rng.shuffle(a)\n", True),
+    ("def t(a):\n    a.sort()\n", True),
+    ("def t(a):\n    a.partition(2)\n", True),
+    ("def t(a):\n    a.fill(0)\n", True),
+    ("def t(a):\n    a.put([0], 1)\n", True),
+    ("def t(a):\n    a.resize((2, 2))\n", True),
+    ("def t(a):\n    a.setflags(write=True)\n", True),
+    ("def t(a):\n    a.itemset(0, 1)\n", True),
+    ("def t(a):\n    a.__setitem__(0, 1)\n", True),
+    ("def t(a):\n    a.__iadd__(1)\n", True),
+    ("def t(a):\n    heapq.heappush(a, 1)\n", True),
+    ("def t(a):\n    operator.iadd(a, 1)\n", True),
+    # in-place arithmetic / stores through views
+    ("def t(a):\n    v = a[1:]\n    v += 1\n", True),
+    ("def t(a):\n    v = a.reshape(-1)\n    v[0] = 1\n", True),
+    ("def t(a):\n    v = a.T\n    v *= 2\n", True),
+    ("def t(a):\n    v = np.asarray(a).ravel()\n    v -= 1\n", True),
+    ("def t(a):\n    a.flat[0] = 1\n", True),
+    ("def t(a):\n    a.real[...] = 0\n", True),
+    ("def t(a):\n    v = np.atleast_1d(np.asarray(a, dtype=float))\n    v /= 2\n", True),
+    ("def t(a):\n    v = a[1:].copy()\n    v += 1\n    return v\n", False),
+    ("def t(a):\n    v = np.sort(a)\n    v.sort()\n    return v\n", False),
+]
+
+
+def effects_selftest() -> list[str]:
+    """Verdict of the analysis on small synthetic functions, one per external call / calling
+    convention that can write into an argument; -> list of disagreements with the expectation."""
+    bad = []
+    for src, want in EFFECTS_SELFTEST:
+        fn = ast.parse(src).body[0]
+        try:
+            tr = FuncTranslator("selftest", "t", fn, False, set()).run()
+            t = _taint(tr)
+            got = any(s_[0] == "inplace" and s_[1] in t for s_ in tr.stmts)
+        except Unsupported as e:
+            got = f"Unsupported: {e}"
+        if got is not want:
+            bad.append(f"{src.splitlines()[1:]}: flagged={got} expected {want}")
+    return bad
 
 
 def pinned_selftest() -> list[str]:
